@@ -302,6 +302,7 @@ func checkC06(r *Run) {
 	}
 
 	c06ErrorFcall(r)
+	checkReplyBufferFresh(r, "fresh-reply-buffer")
 
 	// (5) completed branch: one forward per receive
 	cb := selectCaseBlock(sp.mainSel, sp.compCase)
@@ -894,4 +895,63 @@ func errMessageAlternatives(p *Prog, v ssa.Value, errv ssa.Value, depth int) (bo
 		okAll = false
 	}
 	return okAll, nAlt
+}
+
+// checkReplyBufferFresh: the bytes of a read reply belong to that reply alone. Replies wait, un-encoded, for the single
+// writer while other handler goroutines run; a buffer shared between requests (a field of the handler, a pool, a
+// package variable) lets a later Tread overwrite the data of a reply that has not been written yet. The rule: the
+// slice placed in MessageRread.Data is (a re-slice of) a buffer made in this activation of the dispatcher.
+func checkReplyBufferFresh(r *Run, rule string) {
+	p := r.P
+	h := p.Fn("p9p:(sessionHandler).Handle")
+	if h == nil {
+		r.Undecided(rule, "(sessionHandler).Handle", token.NoPos, "anchor not found")
+		return
+	}
+	n := 0
+	for _, fn := range p.withHelpers(h, 1) {
+		eachInstr(fn, func(in ssa.Instruction) {
+			a, ok := in.(*ssa.Alloc)
+			if !ok || !isP9P(a.Type(), "MessageRread") {
+				return
+			}
+			flds, _, _ := allocFields(a)
+			v := flds["Data"]
+			if v == nil {
+				return
+			}
+			n++
+			base := v
+			for depth := 0; depth < 6; depth++ {
+				if sl, ok := base.(*ssa.Slice); ok {
+					base = sl.X
+					continue
+				}
+				break
+			}
+			fresh := false
+			switch b := base.(type) {
+			case *ssa.MakeSlice:
+				fresh = true
+			case *ssa.Call:
+				// a helper that returns a buffer it makes itself
+				if g := staticCallee(&b.Call); g != nil && g.Blocks != nil && p.InModule(g) {
+					all := true
+					for _, ret := range returnsOf(g) {
+						if len(ret.Results) != 1 {
+							all = false
+							continue
+						}
+						if _, ok := ret.Results[0].(*ssa.MakeSlice); !ok {
+							all = false
+						}
+					}
+					fresh = all
+				}
+			}
+			r.Check(fresh, rule, fnName(fn)+": the data of an Rread is a buffer made for this request", in.Pos(),
+				"the read reply's data lives in storage shared between requests: a reply waiting for the writer is overwritten by the next Tread's handler (right tag, another request's bytes)")
+		})
+	}
+	r.Floor(rule, n, 1, "Rread literals in the dispatcher")
 }
